@@ -20,6 +20,7 @@ open Cherab.Props.C01
 #print axioms run_cur
 #print axioms add_then_remove_breaks
 #print axioms add_then_remove_ok_if_distinct
+#print axioms add_then_remove_old_breaks
 #print axioms add_if_none_breaks
 #print axioms all_setters_canonical
 #print axioms no_setter_problems
